@@ -29,10 +29,14 @@ def run(project, rep):
     rep.rule("F-R3", "inherited mutex groups are in force (S-R3) and validate_args overrides of classes with groups chain to the base (S-R6)")
     rep.run(S.s_r3_mutexes, schema, rep)
     rep.run(S.s_r6_constraints, schema, rep)
+    rep.run(S.s_r6d_route_independent_constraints, schema, rep)
     from .. import rules_purity as E
     rep.run(E.e_r7_reiterable_class_tables, project, rep)
     rep.run(S.s_r10_per_class_tables, schema, rep)
     rep.run(F.f_r4_order, schema, rep)
+    from .. import rules_unknown as U
+    rep.rule("F-R4b", "the declared order is checked against the document as it was parsed: class-specific groom() overrides do not re-sequence, add or remove children first (U-R9)")
+    rep.run(U.u_r9_overrides_only_retag, schema, rep)
     rep.run(F.f_r5_counting, schema, rep)
     rep.run(T.t_r2, project, rep)
     rep.run(T.t_r3, project, rep)
